@@ -16,6 +16,7 @@ func init() {
 }
 
 func runC11(r *engine.Run) {
+	r.Rule("LOOP-remove", "in core/util/wmpt an in-place removal at the loop index (s = append(s[:i], s[i+1:]...)) is not followed by an unconditional increment of the index: the element that moved into the slot would never be examined, so of two adjacent hashes that were both written again only the first is taken off the collection list")
 	r.Rule("RACE-captured", "a function literal started as a goroutine inside a loop (errgroup.Go, go statement) in core/util/wmpt stores into no variable captured from the enclosing function: the parallel commit of the root's subtrees keeps each subtree's result in the goroutine that produced it")
 	r.Rule("DOM-save", "in commit each arm of a kind that can be saved (branch, shared-prefix, value) calls Save(batcher) on the node before every success return of that arm, and descends into its dirty children first (branch: loop over all 16 slots; shared-prefix: its value); Commit saves the root likewise")
 	r.Rule("DOM-created", "in commit every node put into the batch is also reported on the created channel (and its previous hash, when different, on the deleted channel) on every success path of its arm, including the collapse-level paths: the created report is what cancels a pending delete of the same hash and what a rollback removes")
@@ -71,6 +72,7 @@ func runC11(r *engine.Run) {
 	freshResolved(r, "FRESH-resolved")
 	depLinkBack(r, "DEP-linkback")
 	raceCaptured(r, "RACE-captured", pkgWMPT, 1)
+	loopRemove(r, "LOOP-remove", pkgWMPT)
 }
 
 func domSave(r *engine.Run) {
